@@ -2,6 +2,7 @@
 //! All parameters come from environment variables: the code under test
 //! (`Config::new`) parses the *process* argv with clap, so argv stays empty.
 
+mod env_sim;
 mod gen;
 mod hashseed;
 mod loader_sim;
@@ -23,6 +24,7 @@ fn env_u64(k: &str, d: u64) -> u64 {
 fn run_one(prop: &str, seed: u64, run: u64) -> Report {
     match prop {
         "C10" => loader_sim::run(seed, run),
+        "C06" => env_sim::run(seed, run),
         _ => {
             eprintln!("oalsim: unknown property {prop}");
             std::process::exit(2)
@@ -33,6 +35,7 @@ fn run_one(prop: &str, seed: u64, run: u64) -> Report {
 fn replay_one(prop: &str, doc: &Value) -> Result<Option<Found>, String> {
     match prop {
         "C10" => loader_sim::replay(doc),
+        "C06" => env_sim::replay(doc),
         _ => Err(format!("unknown property {prop}")),
     }
 }
